@@ -100,3 +100,45 @@ def count(r, k, n=1):
 
 def first_diff_key(d):
     return S.generic_path(d[0][0]) if d else None
+
+
+def poisoned_save_cycle(make, poisons, key, case):
+    """A save that FAILS because of a momentarily invalid attribute (set by `poison`, undone by `heal`) must
+    leave no trace: after healing, the same object saves to the same bytes as before, and so does an
+    unrelated fresh object (scratch buffers / caches shared between saves would be left half-filled).
+    `make()` -> (container, locate) where locate(container, name) returns the sub-object to poison."""
+    vs = []
+    n = 0
+    for name, poison, heal in poisons:
+        obj = make()
+        try:
+            ref = save(obj)
+        except Exception:
+            continue
+        other_ref = save(make())
+        try:
+            token = poison(obj)
+        except Exception:
+            continue
+        if token is None:
+            continue
+        n += 1
+        failed = False
+        try:
+            save(obj)
+        except Exception:
+            failed = True
+        heal(obj, token)
+        if not failed:
+            continue
+        try:
+            again = save(obj)
+            other = save(make())
+        except Exception as e:
+            vs.append(viol("save-after-failed-save-raises", dict(key, poison=name, exc=type(e).__name__), {"error": repr(e)[:200]}, case))
+            continue
+        if again != ref:
+            vs.append(viol("failed-save-leaves-a-trace", dict(key, poison=name, where="same-object"), {"lens": [len(ref), len(again)]}, case))
+        elif other != other_ref:
+            vs.append(viol("failed-save-leaves-a-trace", dict(key, poison=name, where="other-object"), {"lens": [len(other_ref), len(other)]}, case))
+    return n, vs
